@@ -34,6 +34,8 @@ CLAIMED = {
          "Seeded search over interleavings at lock granularity with exact replay; the data-race clause of the property is NOT decided by this technique (stated in DESIGN 3 C14 L).", "tx keeper persistence off; push tracker loops of the pool not started; candidate lists are taken by the block-inserting task, as the engine does.", "3 C14"),
  "C15": ("exploration", "deterministic simulation: contract-heavy client (5 embedded contracts x 2 generations, 5 bundled WASM contracts, arbitrary methods/arguments/gas), per-transaction application with one real VM per block; receipt vs effect on all balances, stakes, contract stakes and buffered store writes; burns from the environment's own reports",
          "Seeded exploration of programs/inputs in simulated block contexts; the simulation contributes state and block-context variety and the proposer/validator agreement for these blocks.", LEDGER_NOTE, "3 C15"),
+ "C12": ("exploration", "deterministic simulation with a corrupting peer: messages of all 19 kinds taken from the running simulated ledger, damaged at frame / payload / object level (incl. blocks and transactions assembled from decodable parts and re-signed by the legitimate proposer) and delivered through the real protoPeer.ReadMsg -> Decode -> IdenaGossipHandler.handle path, followed by the consensus loop's consumption (GetProposedBlock -> ValidateBlock, pending proposals, flip queue, AddBlock); oracle: no escaping panic, no hang, allocation per message within 64 x frame + 128 MiB, victim keeps following the chain",
+         "Structure-aware mutation in context, not coverage-guided fuzzing: 'for every byte string' is sampled; allocation is measured by TotalAlloc growth and only the 'claims gigabytes' class is flagged; a panic recovered by TxPool.add's own gate counts as a reject.", "libp2p stream replaced by an in-memory byte queue; the consensus loop is replaced by the harness calling the same entry points; Flipper.writeLoop body run synchronously.", "3 C12"),
  "C19": ("exploration", "seeded request-shape x transport x life-cycle matrix against the real rpc.Server with a probe service (real goroutines, order-insensitive oracle; no simulated scheduler: the gate cannot depend on schedules)",
          "Low-leverage use of the technique, stated as such: seeded generation of exchanges over in-memory transports plus a deterministic life-cycle probe (request sent to the initial endpoint at the DatabaseInitEvent of node.NewNodeWithInjections).", "In-memory transports (httptest recorder, net.Pipe) instead of sockets for the component part; the life-cycle part uses a real localhost listener and abandons node construction at the content-store stub.", "3 C19"),
  "C20": ("exploration", "deterministic simulation: peers as tasks announcing to the real PushPullManager/holder/tracker, tracker loop + gc as tasks on the virtual clock, go-cache on the virtual clock, responder with drawn latencies; pull-request history rules, bounded liveness after announcements stop, drain of internal sizes",
